@@ -1293,7 +1293,14 @@ func (c *Conn) readLine() (string, error) {
 		}
 	}
 
-	return c.text.ReadLine()
+	line, err := c.text.ReadLine()
+	if err == nil && c.lineLimitReader.exceeded() {
+		// The rest of this line has been refused by lineLimitReader, but
+		// bufio hands out what it had already buffered as if it were a
+		// complete line.
+		return "", ErrTooLongLine
+	}
+	return line, err
 }
 
 func (c *Conn) reset() {
